@@ -191,6 +191,11 @@ func sendWire(ctx *Ctx, msgs []*tree.Item) []byte {
 		for _, w := range tr.Written[before:] {
 			out = append(out, w...)
 		}
+		// the sender side of the model (theorems send_is_one_frame / stream_transports_items): what Send
+		// wrote is what the model's writer `enc` gives for this item
+		if p == "" && err == nil {
+			ctx.Add("wire.enc "+m.Render(), "ok "+hexUp(out), m.Size() > 1, "C07")
+		}
 		if p != "" || err != nil || !bytes.Equal(out, m.Encode()) {
 			c07(ctx, "send-bytes", "stream:send-wrong-bytes", fmt.Sprintf("Send #%d: panic=%q err=%v wrote %d bytes, the message encodes to %d", i, p, err, len(out), len(m.Encode())), "# stream.send "+hexUp(m.Encode()))
 			out = m.Encode()
